@@ -153,7 +153,7 @@ func validate(env *run.Env, bin string, traceMod string, idx int, progs []gen.Pr
 		return r
 	}
 	t0 := time.Now()
-	if r.err = env.Exec(bin, pf, ef, 20*time.Minute); r.err != nil {
+	if r.err = env.Exec(bin, pf, ef, execTimeout(env)); r.err != nil {
 		return r
 	}
 	r.wallExec = time.Since(t0).Seconds()
@@ -215,6 +215,13 @@ func validate(env *run.Env, bin string, traceMod string, idx int, progs []gen.Pr
 		r.sample = json.RawMessage(truncJSON(lines[min(len(lines)-1, 3+idx%5)]))
 	}
 	return r
+}
+
+func execTimeout(env *run.Env) time.Duration {
+	if env.Tier == "thorough" {
+		return 30 * time.Minute
+	}
+	return 4 * time.Minute
 }
 
 func truncJSON(b []byte) []byte {
